@@ -44,6 +44,26 @@ func c14ValueFrames(quick bool) C14Group {
 			bad("value-frame-round-trip/set", fmt.Sprintf("SET of %d bytes reads back from the result side as %x (frame %x)", n, got, d.Data))
 		}
 	}
+	// a property header in front of the value: property values of 0..300 bytes and around the 16-bit length limit
+	// (a text SET / APPEND / INCR attaches the key text as a property: binary-safe keys of up to 64 KiB)
+	plens := []int{0, 1, 2, 40, 255, 256, 300, 65529, 65530, 65531, 65532, 65533, 65534, 65535, 65536}
+	for _, pl := range plens {
+		g.Evaluations++
+		pv := blob(pl, 'p')
+		d := protocol.NewLockCommandDataSetStringWithProperty("value", []*protocol.LockCommandDataProperty{protocol.NewLockCommandDataProperty(1, pv)})
+		distinct[fmt.Sprintf("prop%d", pl)] = true
+		if got := d.GetStringValue(); got != "value" {
+			bad("value-frame-round-trip/property", fmt.Sprintf("SET \"value\" with a property of %d bytes reads back as %d bytes %.20q (frame of %d bytes, header %x)", pl, len(got), got, len(d.Data), d.Data[:min(len(d.Data), 12)]))
+			continue
+		}
+		if got := res(d).GetStringValue(); got != "value" {
+			bad("value-frame-round-trip/property", fmt.Sprintf("SET \"value\" with a property of %d bytes reads back from the result side as %d bytes %.20q", pl, len(got), got))
+			continue
+		}
+		if p := res(d).GetDataProperty(1); pl <= 65530 && (p == nil || !bytes.Equal(p.Value, pv)) && !(pl == 0 && (p == nil || len(p.Value) == 0)) {
+			bad("value-frame-round-trip/property", fmt.Sprintf("SET with a property of %d bytes: the property reads back as %v", pl, p))
+		}
+	}
 	// numbers
 	for _, x := range []int64{0, 1, -1, 255, 256, 1 << 31, -(1 << 31), 1<<63 - 1, -(1 << 63)} {
 		g.Evaluations++
